@@ -596,7 +596,7 @@ pub mod lspec {
 //@canary-requires token::builder::authorizer::AuthorizerBuilder::build_inner
 //@canary snapshot-empty-blocks-some :: token::authorizer::snapshot::Authorizer::from_snapshot :: if !blocks.is_empty() { ==>> if true {
 //@canary snapshot-key-map-index :: token::authorizer::snapshot::Authorizer::from_snapshot :: .push(i); ==>> .push(i + 1);
-//@canary snapshot-iterations-dropped :: token::authorizer::snapshot::Authorizer::from_snapshot :: authorizer.world.iterations = world.iterations; ==>> {}
+//@canary snapshot-iterations-dropped :: token::authorizer::snapshot::Authorizer::from_snapshot :: authorizer.world.iterations = world.iterations; ==>> authorizer.world.iterations = 0;
 //@canary snapshot-limits-mixed :: token::authorizer::snapshot::Authorizer::from_snapshot :: max_iterations: limits.max_iterations, ==>> max_iterations: limits.max_facts,
 //@canary-requires token::authorizer::snapshot::Authorizer::from_snapshot
 //@canary-requires token::builder::authorizer::load_and_translate_block
